@@ -23,6 +23,7 @@ import (
 	"os/exec"
 	"reflect"
 	"regexp"
+	"runtime"
 	"sort"
 	"strconv"
 	"strings"
@@ -42,6 +43,12 @@ type evT struct {
 	X  int    `json:"x"`
 }
 
+// evJ is an event as TLC prints it: a burst carries the packets queued on the transport together.
+type evJ struct {
+	evT
+	B []evT `json:"b"`
+}
+
 type pktT struct {
 	T string `json:"t"`
 	A int64  `json:"a"`
@@ -49,7 +56,7 @@ type pktT struct {
 }
 
 type stepT struct {
-	Ev   evT               `json:"ev"`
+	Ev   evJ               `json:"ev"`
 	Out  []pktT            `json:"out"`
 	Done []json.RawMessage `json:"done"`
 	Dead bool              `json:"dead"`
@@ -254,6 +261,7 @@ type world struct {
 	stop                chan struct{}
 	inClosed, reqClosed bool
 	drains              int // request-drain goroutines still running
+	burstSeen           bool
 }
 
 func newWorld() *world {
@@ -335,6 +343,18 @@ func (w *world) finish(call int, res string) {
 	w.done[call] = res
 	w.completed[call] = true
 	w.mu.Unlock()
+}
+
+// burstStats counts, for the vacuity guard, the bursts with two responses to one open that were
+// replayed, and how many of them the read loop finished before any OpenChannel caller returned.
+var burstStats struct{ dup, adversarial, exited int }
+
+// completedLocked must not take w.mu when the caller may hold it; it is only called from the
+// conn's read hook (mux loop goroutine), which never holds w.mu.
+func (w *world) completedLocked() int {
+	w.mu.Lock()
+	defer w.mu.Unlock()
+	return len(w.completed)
 }
 
 func reqRes(ok bool, err error, wr bool) string {
@@ -445,7 +465,7 @@ type obsT struct {
 }
 
 // step executes one event, waits for quiescence and returns what happened.
-func (w *world) step(e evT) (obsT, error) {
+func (w *world) step(e evT, burst []evT) (obsT, error) {
 	var o obsT
 	switch e.K {
 	case "opench", "lgreq", "lcreq", "lgreqh", "lcreqh", "accept", "reject", "closech":
@@ -465,10 +485,57 @@ func (w *world) step(e evT) (obsT, error) {
 		w.pair.Release()
 	case "peereof":
 		w.peer.Close()
+	case "burst":
+		// all packets are on the transport before the read loop is woken: it handles them back to back
+		var pk [][]byte
+		resp := map[int]int{}
+		for _, b := range burst {
+			pk = append(pk, packet(b))
+			if b.K == "confirm" || b.K == "fail" {
+				resp[b.ID]++
+			}
+		}
+		dupBurst := false
+		for _, n := range resp {
+			if n >= 2 {
+				dupBurst = true
+			}
+		}
+		w.mu.Lock()
+		before := len(w.completed)
+		w.mu.Unlock()
+		reads := 0
+		w.pair.Locked(func() {
+			w.pair.ReadHook = func(ep int, closing bool) {
+				if ep != 0 {
+					return
+				}
+				reads++
+				if reads == len(pk)+1 || closing { // the loop has handled the whole burst (or exits inside it)
+					if dupBurst && !w.burstSeen {
+						w.burstSeen = true
+						// was every OpenChannel caller still un-returned when the loop finished the burst?
+						if w.completedLocked() == before {
+							burstStats.adversarial++
+						}
+						burstStats.dup++
+					}
+				}
+			}
+		})
+		w.burstSeen = false
+		w.peer.WritePackets(pk)
+		synctest.Wait()
+		if dupBurst && !w.burstSeen { // the loop had exited before the burst: nothing was read
+			burstStats.exited++
+		}
+		w.pair.Locked(func() { w.pair.ReadHook = nil })
+		goto settled
 	default:
 		w.peer.WritePacket(packet(e)) // fails silently once the mux has closed the connection
 	}
 	synctest.Wait()
+settled:
 	for {
 		p, ok := w.peer.TryRead()
 		if !ok {
@@ -551,14 +618,15 @@ func replayIn(t *testing.T, c *caseT) (mm *mismatch) {
 		var evs []evT
 		for _, e := range preambles[c.Cfg] {
 			evs = append(evs, e)
-			if _, err := w.step(e); err != nil {
+			if _, err := w.step(e, nil); err != nil {
 				mm = &mismatch{Step: -1, What: "preamble: " + err.Error(), Events: evs}
 				return
 			}
 		}
 		for i, st := range c.Steps {
-			evs = append(evs, st.Ev)
-			got, err := w.step(st.Ev)
+			evs = append(evs, st.Ev.evT)
+			evs = append(evs, st.Ev.B...)
+			got, err := w.step(st.Ev.evT, st.Ev.B)
 			if err != nil {
 				mm = &mismatch{Step: i, What: err.Error(), Events: evs}
 				return
@@ -705,7 +773,11 @@ func TestReplayChild(t *testing.T) {
 			return err
 		}
 		prog.WriteAt([]byte(fmt.Sprintf("%-12d", i)), 0)
-		if mm := replayIn(t, &c); mm != nil {
+		mm := replayIn(t, &c)
+		if burstStats.dup+burstStats.exited > 0 {
+			os.WriteFile(os.Getenv("VERIF_C36_REPORT")+".stats", []byte(fmt.Sprintf("%d %d %d", burstStats.dup, burstStats.adversarial, runtime.GOMAXPROCS(0))), 0o644)
+		}
+		if mm != nil {
 			b, _ := json.Marshal(childReport{Case: i, Sig: sigOf(&c, mm), What: mm.What, Mismatch: mm, Stale: c.Stale, Cfg: c.Cfg})
 			rep.Write(append(b, '\n'))
 		}
@@ -760,6 +832,11 @@ func runChildren(t *testing.T, out *vutil.Out, mode, childTest string, ncases in
 	report := dir + "/report.ndjson"
 	start := 0
 	crashes := 0
+	dupBursts, advBursts := 0, 0
+	defer func() {
+		out.Extra["duplicate_response_bursts_replayed"] = dupBursts
+		out.Extra["duplicate_response_bursts_loop_first"] = advBursts
+	}()
 	for start < ncases {
 		os.WriteFile(progress, []byte(fmt.Sprintf("%-12d", -1)), 0o644)
 		cmd := exec.Command(os.Args[0], "-test.run=^"+childTest+"$", "-test.timeout=3000s")
@@ -767,6 +844,14 @@ func runChildren(t *testing.T, out *vutil.Out, mode, childTest string, ncases in
 		var buf bytes.Buffer
 		cmd.Stdout, cmd.Stderr = &buf, &buf
 		err := cmd.Run()
+		if sb, e2 := os.ReadFile(report + ".stats"); e2 == nil {
+			var a, b, c int
+			fmt.Sscan(string(sb), &a, &b, &c)
+			dupBursts += a
+			advBursts += b
+			out.Extra["replay_gomaxprocs"] = c
+			os.Remove(report + ".stats")
+		}
 		pb, _ := os.ReadFile(progress)
 		ps := strings.TrimSpace(string(pb))
 		if ps == "done" {
